@@ -36,6 +36,7 @@ def run(ctx):
             st["marshal_ok"] += 1
     c12.judge_decoding(ctx, cases, results, st, "real")
     c12.judge_vectors(ctx, recs, verdicts, st, "C02")
+    c12.judge_big(ctx, st, "C02")
     ctx.log("stats: %s" % dict(st))
     # distinct non-trivial: a documented source whose real encoding was decoded into at least one
     # documented target and compared with the specification's expected value
@@ -57,6 +58,7 @@ def run(ctx):
         cases=len(cases), cases_unclaimed=st["unclaimed"], marshal_ok=st["marshal_ok"], marshal_refused=st["marshal_refused"],
         round_trips_equal=st["rt_equal"], decode_errors_allowed=st["rt_err_allowed"],
         round_trips_into_prefilled_or_reused_destination_identical_to_fresh=st["rt_same_as_fresh"],
+        size_limit_cases=st["big_cases"], size_limit_round_trips_equal=st["big_rt_equal"], size_limit_refused=st["big_refused"],
         random_vectors=len(verdicts), random_vectors_claimed=st["vec_claimed"], random_vector_round_trips=st["vec_decodes"],
         samples=[dict(c12.sample_of(c, results[c["id"]]),
                       round_trip=[dict(target=c12.kshape(t["K"]), got=results[c["id"]]["decs"][i].get("real", {}).get("st"))
